@@ -1,10 +1,11 @@
 // Driver for C05 (the cache returns exactly what was stored, or not-found).
 //
 //	-mode hist     replays the test cases TLC emits from spec/cacheseq/MC_CacheSeq (one per
-//	               transition of the state graph of CacheSeq.tla): a history of Put / PutBytes /
-//	               Get / GetBytes / GetFile / OutputFile calls of the REAL, unmodified cache
-//	               package interleaved with damage done with plain os calls; the last action is
-//	               the judged one, followed by every lookup of every id.
+//	               state-changing transition of the state graph of CacheSeq.tla): a history of
+//	               Put / PutBytes calls of the REAL, unmodified cache package interleaved with
+//	               damage done with plain os calls; the last action is the judged one, followed
+//	               by every lookup (Get / GetBytes / GetFile of every id, OutputFile of every
+//	               output id: the self-loops of the reached state); seeded lookups in between.
 //	-mode entries  replays the near-valid index entries TLC emits from MC_IndexEntry: the bytes
 //	               are written as the index file of the action id and Get / GetBytes / GetFile
 //	               are called.
@@ -646,9 +647,6 @@ func runHist(casesPath, work, outPath string) {
 		if err := json.Unmarshal(line, &cs); err != nil {
 			vutil.Fatalf("bad case %d: %v", n, err)
 		}
-		if len(cs.P) == 0 {
-			vutil.Fatalf("case %d without a path", n)
-		}
 		res.Count("cases", 1)
 		rng := rand.New(rand.NewSource(seed*1000003 + int64(n)))
 		h := &histRun{cfg: cfg, w: w, cs: &cs}
@@ -657,8 +655,11 @@ func runHist(casesPath, work, outPath string) {
 		for k, s := range cs.P {
 			steps[k] = parseStep(s)
 		}
-		lastOp := steps[len(steps)-1].op
-		res.Count("last:"+lastOp, 1)
+		if len(steps) > 0 {
+			res.Count("last:"+steps[len(steps)-1].op, 1)
+		} else {
+			res.Count("last:(initial state)", 1)
+		}
 		nontrivial := cs.ND > 0 || len(steps) > 1
 		complete := true
 		var probes []string
@@ -693,6 +694,13 @@ func runHist(casesPath, work, outPath string) {
 				h.lookups(idn, exp, "")
 				res.Count("law:"+exp[3], 1)
 			}
+			// OutputFile of every output id the model knows: total, and names the content-addressed file
+			h.ci.class = strings.Join(cs.P, "; ") + "; then OutputFile"
+			h.ci.input = map[string]interface{}{"history": cs.P, "probes_before": probes, "then": "OutputFile of every output id", "contents": cfg.Str}
+			for cn := range cfg.Str {
+				h.exec(step{op: "outputfile", c: cn}, false)
+			}
+			h.exec(step{op: "outputfile", c: cfg.Ghost}, false)
 			for idn, want := range cs.Idx {
 				if got := h.projIdx(actionID(idn)); got != want {
 					drift("dir-differs", fmt.Sprintf("index file of %s: real %q, model %q", idn, got, want), h.ci, nil)
